@@ -1,6 +1,114 @@
-"""Self tests of the machinery (filled in below)."""
+"""Self tests of the machinery: determinism, sensitivity (mutants), findings."""
+import json
+import multiprocessing
+import os
+import shutil
+import subprocess
+import sys
+import time
+from concurrent.futures import ProcessPoolExecutor
+
+from . import core
+
+
 def setup():
-    import plasTeX, jinja2
-    from sim import core
+    import plasTeX
+    import jinja2           # noqa
+    for pid in sorted(core.PROPS):
+        try:
+            core.load_prop(pid)
+        except ModuleNotFoundError:
+            pass
+    if not os.path.realpath(plasTeX.__file__).startswith(os.path.realpath(core.REPO)):
+        print('HARNESS-ERROR plasTeX imported from %s, not from %s' % (plasTeX.__file__, core.REPO))
+        return core.EXIT_HARNESS
     print('setup ok: plasTeX from', plasTeX.__file__)
     return 0
+
+
+# --------------------------------------------------------------------------
+# determinism: same seed -> same complete event log, whatever the worker,
+# pool size, interpreter or string-hash seed
+
+def _digest_batch(pid, base_seed, tier, indices):
+    out = core._worker_batch(pid, base_seed, tier, indices, 0)
+    sigs = dict((v['index'], sorted(x['sig'] for x in v['violations'])) for v in out['viol'])
+    return dict((i, [out['logdig'].get(i), sigs.get(i, [])]) for i in indices), out['errors']
+
+
+def compute_digests(pid, base_seed, tier, n, workers):
+    prop = core.load_prop(pid)
+    if hasattr(prop, 'prepare'):
+        prop.prepare()
+    res, errors = {}, []
+    ctx = multiprocessing.get_context('fork')
+    chunk = max(1, n // (workers * 2))
+    with ProcessPoolExecutor(max_workers=workers, mp_context=ctx) as ex:
+        futs = [ex.submit(_digest_batch, pid, base_seed, tier, list(range(s, min(n, s + chunk))))
+                for s in range(0, n, chunk)]
+        for f in futs:
+            d, e = f.result()
+            res.update(d)
+            errors.extend(e)
+    return res, errors
+
+
+def digests_cli(pid, base_seed, tier, n, workers):
+    res, errors = compute_digests(pid, base_seed, tier, n, workers)
+    print('@@DIGESTS@@' + json.dumps({'digests': dict((str(k), v) for k, v in res.items()), 'errors': errors}))
+    return 0
+
+
+def _sub_digests(pid, base_seed, tier, n, workers, hashseed):
+    env = dict(os.environ)
+    env['PYTHONHASHSEED'] = str(hashseed)
+    p = subprocess.run([core.PYTHON, os.path.join(core.VERIF, 'bin', 'verify'), '_digests', pid, '--runs', str(n),
+                        '--workers', str(workers), '--seed', str(base_seed), '--tier', tier],
+                       capture_output=True, text=True, env=env, timeout=3000)
+    for line in p.stdout.splitlines():
+        if line.startswith('@@DIGESTS@@'):
+            return json.loads(line[len('@@DIGESTS@@'):])
+    raise core.HarnessError('digest subprocess failed: %s' % (p.stdout + p.stderr)[-1500:])
+
+
+DET_N = {'quick': {'C04': 400, 'C06': 400, 'C09': 200, 'C13': 8, 'C15': 400, 'C17': 8, 'C20': 8},
+         'thorough': {'C04': 20000, 'C06': 20000, 'C09': 4000, 'C13': 200, 'C15': 20000, 'C17': 200, 'C20': 200}}
+
+
+def determinism(pids, tier, base_seed):
+    rc = 0
+    for pid in pids:
+        if pid not in core.PROPS:
+            continue
+        try:
+            core.load_prop(pid)
+        except ModuleNotFoundError:
+            continue
+        n = DET_N[tier].get(pid, 8)
+        t0 = time.monotonic()
+        a = _sub_digests(pid, base_seed, tier, n, 16, 0)
+        b = _sub_digests(pid, base_seed, tier, n, 16, 0)        # same configuration twice
+        c = _sub_digests(pid, base_seed, tier, n, 1 if n <= 400 else 3, 0)      # another pool size
+        d = _sub_digests(pid, base_seed, tier, n, 7, 424242)     # fresh interpreter, another hash seed
+        mism = 0
+        for name, other in (('repeat', b), ('pool-size', c), ('hashseed', d)):
+            for k, v in a['digests'].items():
+                if other['digests'].get(k) != v:
+                    mism += 1
+                    if mism <= 5:
+                        print('DETERMINISM-MISMATCH property=%s index=%s condition=%s %s != %s'
+                              % (pid, k, name, v, other['digests'].get(k)))
+        errs = sum(len(x['errors']) for x in (a, b, c, d))
+        print('determinism %s: seeds=%d conditions=4 mismatches=%d harness_errors=%d wall=%.1fs'
+              % (pid, n, mism, errs, time.monotonic() - t0))
+        if mism or errs:
+            rc = core.EXIT_HARNESS
+        path = os.path.join(core.VERIF, 'evidence', 'determinism_%s.json' % pid)
+        os.makedirs(os.path.dirname(path), exist_ok=True)
+        with open(path, 'w') as f:
+            json.dump({'property': pid, 'tier': tier, 'seed': base_seed, 'seeds_checked': n,
+                       'conditions': ['16 workers PYTHONHASHSEED=0', 'same again', '1-3 workers',
+                                      '7 workers PYTHONHASHSEED=424242 (fresh interpreter)'],
+                       'mismatches': mism, 'harness_errors': errs}, f, indent=1)
+            f.write('\n')
+    return rc
